@@ -2,7 +2,7 @@ SPECIFICATION Spec
 CONSTANTS
   Tables <- MCTables
   Bytes <- MCBytes
-  MaxBytes = 8
+  MaxBytes = 7
   MaxLines = 2
   Codes <- MCCodes
   VarRets = {0}
